@@ -274,7 +274,12 @@ pub fn main(table: &[Entry]) {
                     }
                     chosen = c2;
                 }
+                // plus a few long inputs (runs of 64..600 bytes), split points sampled
+                let long: Vec<&Vec<u8>> = set.inputs.iter().filter(|i| i.len() >= 64 && i.len() <= 600).take(if thorough { 40 } else { 10 }).collect();
+                let n_short = chosen.len();
+                chosen.extend(long);
                 for (ci, input) in chosen.into_iter().enumerate() {
+                    let is_long = ci >= n_short;
                     let full_opts = Opts { partial: false, trace: false, budget: true, max_items: input.len() + 3 };
                     let full = run_entry(e, input, 0, &full_opts);
                     if full.panicked.is_some() || !full.ended {
@@ -286,6 +291,9 @@ pub fn main(table: &[Entry]) {
                     }
                     for k in 0..=input.len() {
                         if ctx.utf8() && !vmon::utf8::is_boundary(input, k) {
+                            continue;
+                        }
+                        if is_long && k % 7 != (ci % 7) && k + 3 < input.len() && k > 2 {
                             continue;
                         }
                         let popts = Opts { partial: true, trace: false, budget: true, max_items: k + 3 };
